@@ -383,7 +383,7 @@ equivalent("c12-eq-early-return-positive", "C12", (V, """        if not self.ena
 mutant("c01-drop-weight", ["C01", "C06"], (R, "self.activation_degree = self.weight * self.antecedent.activation_degree(", "self.activation_degree = 1.0 * self.antecedent.activation_degree("), "P3/Rule.activate_with/weight")
 mutant("c01-or-uses-conjunction", ["C01", "C06"], (R, """                return disjunction.compute(
                     self.activation_degree(conjunction, disjunction, node.left),""", """                return conjunction.compute(
-                    self.activation_degree(conjunction, disjunction, node.left),"""), "P9/Antecedent.activation_degree/operator-or")
+                    self.activation_degree(conjunction, disjunction, node.left),"""), "P9/Antecedent.activation_degree/")
 mutant("c01-implication-is-conjunction", ["C01", "C08"], (A, """        implication = rule_block.implication
 
         for rule in rule_block.rules:
@@ -426,7 +426,7 @@ mutant("c01-fold-seed-one", "C01", (T, """        y = scalar(0.0)
 mutant("c01-fold-not-carried", "C01", (T, "            y = self.aggregation.compute(y, term.membership(x))  # type: ignore", "            y = self.aggregation.compute(scalar(0.0), term.membership(x))  # type: ignore"), "P7/Aggregated.membership/fold")
 mutant("c01-disabled-variable-returns-one", ["C01", "C06"], (R, """            if not node.variable.enabled:
                 return scalar(0.0)""", """            if not node.variable.enabled:
-                return scalar(1.0)"""), "P9/Antecedent.activation_degree/disabled-variable")
+                return scalar(1.0)"""), "P9/Antecedent.activation_degree/disabled")
 mutant("c01-hedges-not-reversed", ["C01", "C06"], (R, """            for hedge in reversed(node.hedges):
                 result = hedge.hedge(result)
 
@@ -437,14 +437,14 @@ mutant("c01-hedges-not-reversed", ["C01", "C06"], (R, """            for hedge i
 
             return result
 
-        # OPERATOR"""), "P9/Antecedent.activation_degree/input-variable")
-mutant("c01-output-antecedent-uses-membership", ["C01", "C06"], (R, "result = node.variable.fuzzy.activation_degree(node.term)", "result = node.term.membership(node.variable.value)"), "P9/Antecedent.activation_degree/output-variable")
+        # OPERATOR"""), "P9/Antecedent.activation_degree/")
+mutant("c01-output-antecedent-uses-membership", ["C01", "C06"], (R, "result = node.variable.fuzzy.activation_degree(node.term)", "result = node.term.membership(node.variable.value)"), "P9/Antecedent.activation_degree/")
 mutant("c01-defuzzify-range-swapped", "C01", (V, "self.defuzzifier.defuzzify(self.fuzzy, self.minimum, self.maximum)", "self.defuzzifier.defuzzify(self.fuzzy, self.maximum, self.minimum)"), "P8/")
 mutant("c01-operands-swapped-children", ["C01", "C06"], (R, """                return conjunction.compute(
                     self.activation_degree(conjunction, disjunction, node.left),
                     self.activation_degree(conjunction, disjunction, node.right),""", """                return conjunction.compute(
                     self.activation_degree(conjunction, disjunction, node.left),
-                    self.activation_degree(conjunction, disjunction, node.left),"""), "P9/Antecedent.activation_degree/operator-and")
+                    self.activation_degree(conjunction, disjunction, node.left),"""), "P9/Antecedent.activation_degree/")
 mutant("c01-activated-ignores-degree", "C01", (T, """        y = self.implication.compute(
             np.atleast_2d(self.degree).T,
             self.term.membership(x),
@@ -724,7 +724,7 @@ mutant("c06-any-applies-term", "C06", (R, """                if isinstance(node.
                     for hedge in reversed(node.hedges):
                         result = hedge.hedge(result)
                     return result"""), "P9/Antecedent.activation_degree/any")
-mutant("c06-operands-reversed-queue", "C06", (T, '        postfix = " ".join(queue)', '        postfix = " ".join(reversed(queue))'), "PD/Function.infix_to_postfix/end-of-input")
+mutant("c06-operands-reversed-queue", "C06", (T, '        postfix = " ".join(queue)', '        postfix = " ".join(reversed(queue))'), "PD/Function.infix_to_postfix/")
 
 # ------------------------------------------------------------------------------------------ C18
 GRID = """            k = max(1, round(pow(values, (1.0 / inputs))))
@@ -1164,8 +1164,9 @@ WSUM = """            weighted_sum = weighted_sum + np.where(w == 0.0, 0.0, w * 
         y = (weighted_sum / weights).squeeze()  # type: ignore
         return y
 """
-mutant("c10-regress-zero-times-inf", "C10", (D, WSUM, WSUM.replace("np.where(w == 0.0, 0.0, w * z)", "w * z")), "A2/WeightedAverage.defuzzify/Sigmoid")
-mutant("c10-siblings-diverge", "C10", (D, WSUM, WSUM.replace("np.where(w == 0.0, 0.0, w * z)", "np.where(w <= 0.0, 0.0, w * z * 1.0)")), "S3/WeightedAverage~WeightedSum/contribution")
+mutant("c10-regress-zero-times-inf", "C10", (D, WSUM, WSUM.replace("np.where(w == 0.0, 0.0, w * z)", "w * z")), "W-sem/WeightedAverage.defuzzify/nan")
+# equal for every degree >= 0 (w <= 0 is w == 0 there; * 1.0 is the identity): the sibling-comparison rule of earlier rounds reported the spelling
+equivalent("c10-siblings-diverge", "C10", (D, WSUM, WSUM.replace("np.where(w == 0.0, 0.0, w * z)", "np.where(w <= 0.0, 0.0, w * z * 1.0)")))
 mutant("c10-tsukamoto-selected-for-takagi", "C10", (D, """            if this_type == WeightedDefuzzifier.Type.Tsukamoto
             else Term.membership.__name__
         )
@@ -1186,7 +1187,7 @@ mutant("c10-tsukamoto-selected-for-takagi", "C10", (D, """            if this_ty
             weighted_sum = weighted_sum + np.where(w == 0.0, 0.0, w * z)
             weights = weights + w
 
-        y = (weighted_sum / weights).squeeze()  # type: ignore"""), "S3/WeightedAverage.defuzzify/value")
+        y = (weighted_sum / weights).squeeze()  # type: ignore"""), "W-sem/WeightedAverage.defuzzify/value")
 mutant("c10-ungrouped-terms", "C10", (D, """        for activated in fuzzy_output.grouped_terms().values():
             w = activated.degree
             z = activated.term.__getattribute__(membership)(w)
@@ -1201,7 +1202,7 @@ mutant("c10-ungrouped-terms", "C10", (D, """        for activated in fuzzy_outpu
             weighted_sum = weighted_sum + np.where(w == 0.0, 0.0, w * z)
             weights = weights + w
 
-        y = weighted_sum / weights"""), "S3/")
+        y = weighted_sum / weights"""), "W-sem/WeightedSum.defuzzify/grouping")
 mutant("c10-infer-monotonic-as-takagi", "C10", (D, """        elif component.is_monotonic():
             return WeightedDefuzzifier.Type.Tsukamoto""", """        elif component.is_monotonic():
             return WeightedDefuzzifier.Type.TakagiSugeno"""), "T-inf/WeightedDefuzzifier.infer_type/monotonic")
@@ -1213,7 +1214,7 @@ mutant("c10-weighted-sum-plain", "C10", (D, """        y = weighted_sum / weight
         # Thus, returning nan values in those cases. A regular weighted sum would result in zero.
         y = (y * weights).squeeze()  # type: ignore
         return y""", """        y = weighted_sum.squeeze()  # type: ignore
-        return y"""), "A3/WeightedSum.defuzzify/all-zero")
+        return y"""), "W-sem/WeightedSum.defuzzify/nan")
 mutant("c10-empty-seed-zero", "C10", (D, """        weighted_sum = scalar(0.0 if fuzzy_output.terms else nan)
         weights = scalar(0.0)
         membership = (
@@ -1242,7 +1243,7 @@ mutant("c10-empty-seed-zero", "C10", (D, """        weighted_sum = scalar(0.0 if
             weighted_sum = weighted_sum + np.where(w == 0.0, 0.0, w * z)
             weights = weights + w
 
-        y = weighted_sum / weights"""), "A3/WeightedSum.defuzzify/seeds")
+        y = weighted_sum / weights"""), "W-sem/WeightedSum.defuzzify/nan")
 mutant("c10-group-default-maximum", "C10", (T, "        aggregation = self.aggregation or UnboundedSum()", "        aggregation = self.aggregation or self.aggregation"), "W-grp/Aggregated.grouped_terms/default-aggregation")
 mutant("c10-group-by-class", "C10", (T, """            if activated.term.name not in groups:
                 groups[activated.term.name] = Activated(""", """            if activated.term.name not in groups:
@@ -1418,7 +1419,7 @@ mutant("seed-c06-or-short-circuit", ["C06", "C01"], (R, """                retur
                     return left
                 return disjunction.compute(left, self.activation_degree(conjunction, disjunction, node.right))
 
-            raise ValueError(f"operator"""), "P9/Antecedent.activation_degree/operator-or")
+            raise ValueError(f"operator"""), "P9/Antecedent.activation_degree/")
 mutant("seed-c09-isclose-maximum", "C09", (D, """        y_max = (y > 0) & (y == y.max(axis=1, keepdims=True))
         mom = np.where(y_max, x, np.nan)""", """        y_max = (y > 0) & np.isclose(y, y.max(axis=1, keepdims=True))
         mom = np.where(y_max, x, np.nan)"""), "MeanOfMaximum")
